@@ -106,6 +106,8 @@ func initSources() {
 	sym("LegacyPrf", keycat.ClassPRF, "RawPrf", 32)
 	sym("LegacyAead", keycat.ClassAEAD, "RawAead", 16)
 	sym("LegacyDaead", keycat.ClassDAEAD, "RawDaead", 32)
+	sym("LegacyDeriver", keycat.ClassDeriver, "RawDeriver", 32)
+	allSources[len(allSources)-1].nreps = 3 // TINK, RAW, CRUNCHY: the derived AES-GCM key has no LEGACY form
 	allSources = append(allSources,
 		customSource("LegacySign", keycat.ClassSign, "RawSign", "RawVerify", func() ([]byte, []byte) {
 			seed := ref.KeyBytes("c19-sign", 32)
